@@ -43,6 +43,11 @@ def scenario_dir(rng, base):
     write_tree(base, {c06.page_name(5): "# page 5 #hv0\n\n- note%d r1\n- note%d r1\n\n" % (serial[0] - 1, serial[0])})
     with freeze_time(dt.datetime(2024, 6, 1, 12)):
         Z.db_create(base)
+    # ZIDs of the crash day already exist (an earlier, complete run on that day): a counter that starts over would
+    # hand them out again
+    c06.apply_real(base, ["addnote", 3], serial, None)
+    with freeze_time(dt.datetime(2024, 6, 2, 12)):
+        Z.db_reindex(base)
     ops = [["addnote", 1], ["editnote", 2, 0], ["newpage", 4, 2], ["addnote", 3], ["editnote", 1, 0]]
     rng.shuffle(ops)
     applied = ops[:rng.randint(3, 5)] + [["editnote", 5, rng.randint(0, 1)]]
